@@ -1,6 +1,7 @@
 package element
 
 import (
+	"bytes"
 	"crypto/md5"
 	"encoding/hex"
 	"fmt"
@@ -9,6 +10,7 @@ import (
 
 	ptypes "github.com/auxten/postgresql-parser/pkg/sql/types"
 	"github.com/pingcap/parser/ast"
+	"github.com/pingcap/parser/format"
 	"github.com/pingcap/parser/types"
 	"github.com/sunary/sqlize/utils"
 )
@@ -273,20 +275,31 @@ func withoutForeignKeyMarks(opts []*ast.ColumnOption) []*ast.ColumnOption {
 	return res
 }
 
+// optionKey identifies an option by its kind and value (DEFAULT 1 and DEFAULT 2 differ)
+func optionKey(opt *ast.ColumnOption) string {
+	if opt.Expr == nil {
+		return fmt.Sprintf("%d %s", opt.Tp, opt.StrValue)
+	}
+
+	b := bytes.NewBufferString("")
+	_ = opt.Restore(format.NewRestoreCtx(UppercaseRestoreFlag, b))
+	return b.String()
+}
+
 func hasChangedMysqlOptions(new, old []*ast.ColumnOption) bool {
 	new, old = withoutForeignKeyMarks(new), withoutForeignKeyMarks(old)
 	if len(new) != len(old) {
 		return true
 	}
 
-	mNew := map[ast.ColumnOptionType]int{}
+	mNew := map[string]int{}
 	for i := range new {
-		mNew[new[i].Tp] += 1
+		mNew[optionKey(new[i])] += 1
 	}
 
-	mOld := map[ast.ColumnOptionType]int{}
+	mOld := map[string]int{}
 	for i := range old {
-		mOld[old[i].Tp] += 1
+		mOld[optionKey(old[i])] += 1
 	}
 
 	for k, v := range mOld {
